@@ -291,6 +291,8 @@ func checkC19(c *Ctx) {
 	r.Rule("R19g", "required lists follow checkIfFieldRequired under the property's own name", 4)
 	r.Rule("R19j", "every constraint keyword is derived from (and guarded by) a rule that constrains the same quantity in the same unit (converse of R19b)", 14)
 	keywordSources(c, "R19j")
+	r.Rule("R19k", "a schema rebuilt as a copy of another (a literal whose fields are read from one source schema) copies every constraint keyword: a wrapper such as the nullable form must not drop the bounds the rules state", 1)
+	schemaCopiesKeepConstraints(c, "R19k")
 
 	decls := c.oaDecls(pkgOpenAPI)
 	pk := c.P.Pkg(pkgOpenAPI)
@@ -1086,4 +1088,72 @@ func keywordSources(c *Ctx, rid string, weaker ...map[string][]string) {
 	if n == 0 {
 		r.Unres(rid, "apply*Constraints keyword assignments", "", "no assignment of a constraint keyword found")
 	}
+}
+
+// schemaCopiesKeepConstraints — R19k. A composite literal of libopenapi's base.Schema at least two of whose fields are read
+// from the same source schema value (Format: src.Format, Enum: src.Enum …) is a partial copy of that schema. Every
+// constraint keyword the generator ever sets (the keys of c19KeywordOf) must then be among the copied fields; a missing one
+// means the copy accepts values the rules reject whenever the source carried that keyword.
+func schemaCopiesKeepConstraints(c *Ctx, rid string) {
+	r := c.R
+	decls := c.oaDecls(pkgOpenAPI)
+	nLits, nCopies := 0, 0
+	for fn, decl := range decls {
+		if decl.Body == nil {
+			continue
+		}
+		info := c.P.DeclPkg[fn].TypesInfo
+		ast.Inspect(decl.Body, func(nd ast.Node) bool {
+			lit, ok := nd.(*ast.CompositeLit)
+			if !ok {
+				return true
+			}
+			tv, ok := info.Types[lit]
+			if !ok || !typeIsNamed(tv.Type, "datamodel/high/base", "Schema") {
+				return true
+			}
+			nLits++
+			copied := map[string]bool{}
+			srcCount := map[string]int{}
+			for _, el := range lit.Elts {
+				kv, ok := el.(*ast.KeyValueExpr)
+				if !ok {
+					continue
+				}
+				k, ok := kv.Key.(*ast.Ident)
+				if !ok {
+					continue
+				}
+				ast.Inspect(kv.Value, func(m ast.Node) bool {
+					if sel, ok := m.(*ast.SelectorExpr); ok {
+						if t := info.TypeOf(sel.X); t != nil && typeIsNamed(t, "datamodel/high/base", "Schema") && sel.Sel.Name == k.Name {
+							copied[k.Name] = true
+							srcCount[types.ExprString(sel.X)]++
+						}
+					}
+					return true
+				})
+			}
+			src, best := "", 0
+			for s2, n := range srcCount {
+				if n > best {
+					src, best = s2, n
+				}
+			}
+			if best < 2 {
+				return true
+			}
+			nCopies++
+			var missing []string
+			for _, kw := range sortedKeys(c19KeywordOf) {
+				if !copied[kw] {
+					missing = append(missing, kw)
+				}
+			}
+			r.Check(len(missing) == 0, rid, FuncName(fn)+": the schema copied from "+src+" keeps every constraint keyword", c.P.Pos(lit.Pos()),
+				fmt.Sprintf("%s builds a new schema from fields of %s but leaves out %v: when the source schema carries one of them (a length, pattern, bound or const from the field's rules) the copy — here the published form — no longer states it and accepts values the rules reject", FuncName(fn), src, missing))
+			return true
+		})
+	}
+	r.OKd(rid, "schema literals inspected for partial copies", "", map[string]any{"schema_literals": nLits, "partial_copies": nCopies})
 }
